@@ -23,6 +23,10 @@ CHECKS = {
    technique="runtime monitoring: offline checker over the recorded transcript of honest runs (stage rule on event order, decoded content of share/opening messages, return values)",
    text="Honest runs for n=2..4, every evaluator, every non-empty output subset, circuits whose outputs alias reused and input registers. The event log must show no message addressed to a non-output party after the sender's input stage; decoded 'wire shares' may carry an output register only to the owner of that input; 'output wire shares'/'lambda' carry values only at output registers and only to output parties; non-output parties return an empty vector.",
    note="Stages are recognised by the engine's own phase labels. Leakage through the content of earlier-stage messages is C06/C07's subject."),
+ "C06": dict(level="exploration", ref="DESIGN.md §3 C06",
+   technique="runtime monitoring: statistical monitor over repeated transcripts (balance of the recovered own mask share), canary-input scanners over a party's outgoing traffic, freshness of probed global keys",
+   text="From the transcript only, each party's own mask share per input wire is recovered as masked_input ^ input ^ XOR of the others' shares; over N executions per input value (256 quick / 2048 thorough) and role the number of ones must lie in a fixed interval. 128 canary input bits (and the own share vector) must not occur in any outgoing message as packed / bool-byte / decoded-bool run nor complemented. All probed global keys and all 128-bit own-share vectors are pairwise distinct.",
+   note="Fixed thresholds (honest false-alarm < 1e-20 per wire); small biases and computational distinguishers are out of reach."),
  "C07": dict(level="fault_enumeration", ref="DESIGN.md §3 C07",
    technique="runtime monitoring: offline checker over the recorded transcript (hash-set window scan for the probed global key and XOR sets of size 2 and 3), on honest runs and on every execution of the C03/C04 fault catalogues",
    text="For every honest party T and execution the pooled transcript is scanned for delta_T (probe): the key at every byte offset in both byte orders, two windows XORing to it (every offset, mixed byte orders, linear time), and in honest 2-party runs three decoded 128-bit fields XORing to it. Honest runs cover n=2..4 with NOT gates and all roles; adversarial runs are the C03 and C04 catalogues incl. the cheater-continues variants.",
@@ -35,6 +39,14 @@ CHECKS = {
    technique="runtime monitoring: recording channel, per (party, peer) sequence of (direction, byte length) compared across executions with different inputs and coins",
    text="For each sampled public configuration (circuit, n, evaluator, output set, temp-file mask) R executions with inputs all-0, all-1 and random and fresh coins are run under one fixed schedule; the per-(party,peer) sequences of (direction, length) must be identical, the first differing operation is the witness.",
    note="Timing is not observed; configurations are sampled. The fixed round-robin schedule makes per-party operation order a function of the code path only."),
+ "C10": dict(level="exploration", ref="DESIGN.md §3 C10",
+   technique="runtime monitoring: invariant check (MAC relation, AND relation, coin equality) on the values returned by the real preprocessing driven through verification wrappers in the simulator",
+   text="The distributed preprocessing (coin tosses, aShare, Beaver/bucketing exactly as gen_auth_bits calls them) runs for n=2..5 and batch lengths around 64/128 boundaries and 1000/3099/3100/5000 (bucket sizes 5 and 4) with left/right shares that are public linear combinations of fresh shares; the trusted dealer is driven by a harness client and through mpc. Every returned share must satisfy MAC_i[j] = key_j[i] ^ bit_i*delta_j, AND shares must XOR to the AND of the XORs, shared coins must agree.",
+   note="Bucket size 3 (>= 280000 triples) is not exercised. Relations are checked on everything returned, for the executions produced."),
+ "C11": dict(level="exploration", ref="DESIGN.md §3 C11",
+   technique="runtime monitoring: relation check on the results of the real KOS correlated-OT sessions over the simulated channel",
+   text="For every length (1..300 plus 8k+-1 and 128k+-1 up to 4097 quick, every length to 4096 thorough) two back-to-back sessions with shared session RNG in both orders, four choice-vector classes and per-index correlations: both result vectors have the requested length and recv[i] = send0[i] ^ (c[i] & correlation[i]).",
+   note="Uses the existing __bench re-exports; big-endian block convention as in the engine."),
  "C12": dict(level="exploration", ref="DESIGN.md §3 C12",
    technique="runtime monitoring under schedule exploration: deterministic executor with seeded adversarial schedulers (random, PCT, starvation, lazy/eager delivery), bounded channels, exact deadlock detection, outstanding-operation guards",
    text="Honest executions under seeded schedulers x capacities 1, 2, unbounded x n=2..4 x every evaluator; every party must end Ok with the clear-text value, the run must never be stuck (no runnable task, no deliverable message) and no (party, peer) may have two sends or two receives outstanding. Evidence counts distinct schedule and interleaving hashes.",
@@ -43,6 +55,14 @@ CHECKS = {
    technique="runtime monitoring: counting channel (operations attempted before return) and panic capture on an enumerated list of invalid arguments",
    text="Every documented-invalid value of each mpc argument and circuit descriptions whose counters disagree with their instructions, used by one party or all parties, n in {2,3}: the call must return Err with 0 channel operations and never panic; a repeated output index must be rejected like that or behave as the de-duplicated set; inconsistent counters must only never panic.",
    note="The list of invalid values is enumerated by hand from the property text; 'rejected up front' is demanded only where the property states it."),
+ "C19": dict(level="exploration", ref="DESIGN.md §3 C19",
+   technique="runtime monitoring: model-based differential testing of the file-backed and in-memory buffer against a reference model over exhaustive short and random long operation sequences, directory / descriptor check after drop",
+   text="All operation sequences up to length 4 over {append sizes around the chunk size, full and abandoned item-wise and chunk-wise reads} for chunk sizes 1,2,5 and random sequences up to length 12 are run against a Vec<Vec<u64>> model, the memory variant and the temp-file variant; items, order and (when all appends but the last have the requested size) chunk boundaries must agree, no file may remain and no descriptor may leak.",
+   note="Element type u64 through the wrapper; mpc-level indifference to tmp_dir is observed by C01/C09/C12."),
+ "C20": dict(level="exploration", ref="DESIGN.md §3 C20",
+   technique="runtime monitoring with sanitizers: differential comparison of SIMD / portable / dispatching primitives against schoolbook references, the same comparison program under Miri (both tiers), valgrind memcheck and AddressSanitizer (thorough)",
+   text="Transpose (128 x c for c up to 4096, all alignments, taller and random shapes), carry-less multiply (all basis pairs, structured and random operands), fixed-key AES hashes and the AES counter generator (every request length 0..1100 in one call) are compared with naive references, including a table-free AES-128 written for the harness. The same program on small shapes runs under Miri (undefined behaviour + independent intrinsic semantics); thorough adds memcheck and ASan.",
+   note="Generator compared for one call on a fresh generator, as the property states. A clean sanitizer run is not memory safety; it covers the shapes driven."),
  "C01": dict(level="exploration", ref="DESIGN.md §3 C01",
    technique="runtime monitoring: real mpc futures in a deterministic simulator, return values compared with an independent clear-text evaluator",
    text="Every party's return value of the real polytune::mpc is compared with an independent clear-text evaluator over generated valid register circuits, for n=2..5, every evaluator, output sets, temp-file masks, channel capacities and AND counts on both sides of the batch boundaries. Held on the executions produced; not a proof.",
